@@ -56,6 +56,16 @@ def literal_message(fn, c):
         k = a.get("k")
         if k and str(k.get("v", "")).startswith('"'):
             return k["v"].strip('"')
+    if len(c.args) >= 2:
+        # expect(self, msg): the message is the second argument; never look into the receiver (its own history may
+        # contain the message of an earlier expect on the same chain)
+        for a in c.args[1:]:
+            if op_place(a) is not None:
+                for r in fn.roots(a, through_calls=False, max_nodes=60):
+                    if r.kind == "const" and str(r.desc).startswith('"'):
+                        return str(r.desc).strip('"')
+        return ""
+    for a in c.args:
         p = op_place(a)
         if p is not None:
             for r in fn.roots(a, through_calls=True, max_nodes=60):
